@@ -1,6 +1,6 @@
 (* C28 — Config edits change only what was edited.  Theorems only; proofs are in Proofs*.v *)
 From GixV.Base Require Import Bytes Outcome.
-From GixV.C28 Require Import Tables Model ProofsNorm ProofsEscape ProofsFrame ProofsBody.
+From GixV.C28 Require Import Tables Model ProofsNorm ProofsEscape ProofsFrame ProofsBody ProofsGet ProofsRemove.
 
 (* A value written by any edit (escape_value) reads back as exactly that value (value::normalize):
    holds for EVERY byte string, incl. leading/trailing white space, comment characters, quotes,
@@ -32,6 +32,8 @@ Proof.
   intros os f f' H. destruct (L_ops_frame os f f' H) as [Hf Hs]. now rewrite Hf, Hs.
 Qed.
 
+Definition demo_text_small : bytes := bs "[a]" ++ [x0a] ++ bs "k = v" ++ [x0a].
+
 (* Inside the edited section, `set` replaces the value events of the last pair with that key by one
    Value event holding the escaped value, or appends a new pair; every other event is kept. *)
 Theorem sm_set_frame : forall body w nl key value prev body',
@@ -43,9 +45,64 @@ Theorem sm_set_frame : forall body w nl key value prev body',
      prev = Some (flat_map value_bytes (firstn (S en - a) (skipn a body)))).
 Proof. exact L_sm_set_frame. Qed.
 
+(* `remove` deletes the events of the last pair with that key (key_start .. last value event), at most
+   one Whitespace event right before it and at most one Newline event right after it — nothing else:
+   comments, other pairs and their white space are kept in place. *)
+Theorem sm_remove_frame : forall body key prev body',
+  sm_remove body key = Some (prev, body') ->
+  (kv_range body key = None /\ prev = None /\ body' = body) \/
+  (exists ks st en a' b',
+     kv_range body key = Some (ks, st, en) /\
+     body' = firstn a' body ++ skipn b' body /\ (a' <= ks <= S en)%nat /\ (S en <= b' <= length body)%nat /\
+     (a' = ks \/ (S a' = ks /\ exists w, nth_error body a' = Some (Whitespace w))) /\
+     (b' = S en \/ (b' = S (S en) /\ exists n, nth_error body (S en) = Some (Newline n))) /\
+     prev = Some (flat_map value_bytes (firstn (S en - ks) (skipn ks body)))).
+Proof. exact L_sm_remove_frame. Qed.
+
+Example sm_remove_example :
+  sm_remove [Newline [x0a]; Whitespace [x20]; SectionValueName (bs "k"); KeyValueSeparator; Value (bs "v");
+             Whitespace [x20]; Comment x23 (bs "c"); Newline [x0a]] (bs "K")
+  = Some (Some (bs "v"), [Newline [x0a]; Whitespace [x20]; Comment x23 (bs "c"); Newline [x0a]]).
+Proof. vm_compute. reflexivity. Qed.
+
 Theorem sm_push_frame : forall body w nl key value,
   firstn (length body) (sm_push body w nl key value) = body.
 Proof. exact L_sm_push_frame. Qed.
+
+(* The edited key reads back.  After a pair was appended to a body (SectionMut::push with a value),
+   Body::value_implicit of that key yields exactly the value that was given — for every body, every
+   white-space convention, every key and every value. *)
+Theorem push_then_get : forall body w nl key v,
+  value_implicit (sm_push body w nl key (Some v)) key = Ok (Some (Some v)).
+Proof. exact L_push_then_get. Qed.
+
+(* `set` of a key the section does not have yet appends, and the value reads back *)
+Theorem set_new_key_then_get_partial : forall body w nl key v,
+  kv_range body key = None ->
+  exists body', sm_set body w nl key v = Some (None, body') /\ value_implicit body' key = Ok (Some (Some v)).
+Proof. exact L_set_new_key_then_get. Qed.
+
+(* File level: section_mut(name, sub)?.push(key, Some(value)) and then raw_value(name, sub, key) *)
+Theorem op_push_then_get : forall f n s k v f',
+  op_push f n s k (Some v) = Ok (f', ROk) -> raw_value f' n s k = Ok (Some v).
+Proof. exact L_op_push_then_get. Qed.
+
+(* The full statement "set, then the key reads back as the value" is FALSE of the code (known class
+   set-implicit-key: the key's last occurrence has no `=`; pinned by a test of gix-config). *)
+Theorem set_then_get_refuted : ~ set_then_get_statement.
+Proof. exact L_set_then_get_refuted. Qed.
+
+Example set_implicit_class_example :
+  set_implicit_class [Newline [x0a]; SectionValueName (bs "k"); Value []; Newline [x0a]] (bs "k") = true.
+Proof. exact set_implicit_class_witness. Qed.
+
+(* hypotheses of op_push_then_get are satisfiable *)
+Example op_push_then_get_example :
+  match events_from_bytes demo_text_small with
+  | Ok f => exists f', op_push f (bs "A") None (bs "z") (Some (bs " v ")) = Ok (f', ROk)
+  | _ => False
+  end.
+Proof. vm_compute. eexists. reflexivity. Qed.
 
 (* ---- non-vacuity --------------------------------------------------------------------------- *)
 
